@@ -1,4 +1,4 @@
-\* C11 liveness (quick, 1 of 2): weak fairness of every loop and of every goroutine inside a call
+\* C11 liveness (thorough): weak fairness of every loop and of every goroutine inside a call
 \*   Close ~> Close returned /\ all loops exited;  every call returns;  a cancelled search returns with the lock released
 \* (no SYMMETRY / VIEW: TLC's liveness checking needs the plain state graph; hence the reduced menu)
 SPECIFICATION FairSpec
@@ -6,9 +6,9 @@ CONSTANTS
   Callers = {c1, c2}
   MaxOps = 1
   LateOps = 0
-  Ops = {"batchS", "batchU", "search", "close"}
+  Ops = {"batchS", "search", "fielddict", "forcemerge", "close"}
   Engine = "disk"
-  MaxMerges = 0
+  MaxMerges = 1
   PauseMode = "none"
   HazFD = FALSE
   HazClose2 = FALSE
